@@ -182,6 +182,36 @@ func (rep *Report) takeTrace(def *propDef, st *TraceStats, cfg TraceSpecCfg, err
 	}
 }
 
+// takeSig attributes the divergences of the front-end stage.
+func (rep *Report) takeSig(def *propDef, st *SigStats, err error) {
+	if st == nil {
+		rep.Infra = append(rep.Infra, fmt.Sprintf("sig stage failed: %v", err))
+		return
+	}
+	fmt.Println(st.summary())
+	if err != nil {
+		rep.Infra = append(rep.Infra, fmt.Sprintf("sig: %v", err))
+	}
+	for _, e := range st.TLC.Errors {
+		rep.Infra = append(rep.Infra, "sig: TLC: "+e)
+	}
+	if st.Cases != st.TLC.Lines || st.Cases == 0 {
+		rep.Infra = append(rep.Infra, fmt.Sprintf("sig: %d cases printed but %d tested", st.TLC.Lines, st.Cases))
+	}
+	rep.Specials = append(rep.Specials, &SpecialStats{Name: "sig", Evaluations: st.Tests, Distinct: st.Cases, States: st.TLC.Distinct,
+		Transitions: st.TLC.Generated, Traces: st.Cases,
+		Rule:    "every signature descriptor of the bounded grammar of spec/Sig.tla (one TLC state each; internal theorems as invariants) is built as a Go value with reflect and passed to the real Provide, Decorate and Invoke in three container states; distinct = enumerated descriptors",
+		Samples: st.Samples, Wall: st.Wall, Extra: map[string]interface{}{"accepted_by_provide": st.Accepted, "divergences": st.Divs}})
+	for _, ex := range st.Examples {
+		if def.claims(ex.Kind, ex.Detail) {
+			b, _ := json.Marshal(ex)
+			rep.Findings = append(rep.Findings, Finding{Property: rep.Prop, Kind: ex.Kind, Detail: ex.Detail, Stage: "sig", Source: "special", Special: b})
+		} else {
+			rep.note(ex.Kind, ex.Detail)
+		}
+	}
+}
+
 func firstLines(s string, n int) string {
 	ls := strings.Split(s, "\n")
 	if len(ls) > n {
